@@ -281,7 +281,7 @@ func (fr *frame) modular(key string, c *Contract, callee *ssa.Function, sig *typ
 			// force creation
 			if strings.HasPrefix(name, "ghost|") {
 				gv := g.db.Ghosts[name[6:]]
-				s = g.reg.STSort(g.resolveType(gv.Type, gv.File, nil))
+				s = g.reg.STSort(g.resolveType(gv.Type, gv.File, g.filePkg(gv.File)))
 				ft.stateGet(st, name, s)
 			} else if strings.HasPrefix(name, "H|") {
 				s = "(Array Int " + name[2:] + ")"
@@ -580,4 +580,4 @@ type intrinsic func(fr *frame, com *ssa.CallCommon, args []Val, st *State, reach
 
 var intrinsics = map[string]intrinsic{}
 
-func intrinsicByPattern(key string) intrinsic { return nil }
+var intrinsicByPattern = func(key string) intrinsic { return nil }
